@@ -142,6 +142,14 @@ pub fn jobs_for(prop: &str, thorough: bool) -> Vec<Job> {
                     t.sweep = None;
                     js.push(t);
                 }
+                if ["OS", "MO", "MMO"].contains(&s) {
+                    let mut t = template_job(s, mon::LAWS, Delivery::Fifo, true, 1000);
+                    t.cfg.nobs = 3;
+                    t.cfg.laws = 24;
+                    t.sweep = Some(Sweep { next: 3, disc: Delivery::Fifo, causal_ref: 0, exhaustive_upto: 0, merges: true });
+                    t.label = "conflict template; partially fed observers' states as operands of the merge laws";
+                    js.push(t);
+                }
             }
         }
         "C03" => {
@@ -158,6 +166,15 @@ pub fn jobs_for(prop: &str, thorough: bool) -> Vec<Job> {
                     t.cfg.laws = 16;
                     t.cfg.nobs = 0;
                     t.sweep = None;
+                    js.push(t);
+                }
+                if ["OS", "MO", "MMO"].contains(&s) {
+                    // partially fed observers (states holding pending removes from *different* removers) as law operands
+                    let mut t = template_job(s, mon::HYBRID, Delivery::Fifo, true, 1000);
+                    t.cfg.nobs = 3;
+                    t.cfg.laws = 24;
+                    t.sweep = Some(Sweep { next: 3, disc: Delivery::Fifo, causal_ref: 0, exhaustive_upto: 0, merges: true });
+                    t.label = "conflict template; partially fed observers' states as operands of merge vs op-path";
                     js.push(t);
                 }
                 if weakest(s) != Delivery::Causal {
@@ -195,6 +212,12 @@ pub fn jobs_for(prop: &str, thorough: bool) -> Vec<Job> {
             swp.merges = true;
             js.push(job("OS", "observer sweep along adversarial FIFO extensions, model at every K", c, Some(swp), 2500));
             js.push(template_job("OS", mon::SPEC | mon::CTX, Delivery::Fifo, true, 600));
+            // several removers with identical contexts, pending removes held by different observers that merge
+            let mut t = template_job("OS", mon::SPEC | mon::CTX, Delivery::Fifo, true, 1500);
+            t.cfg.nobs = 3;
+            t.sweep = Some(Sweep { next: 30, disc: Delivery::Fifo, causal_ref: 2, exhaustive_upto: 0, merges: true });
+            t.label = "conflict template, three observers exchanging state in mid-delivery";
+            js.push(t);
         }
         "C05" => {
             let mut ms = MAPS.to_vec();
